@@ -121,7 +121,13 @@ inline Py_ALWAYS_INLINE T ListGetItemAs(const py::handle& list, const py::ssize_
     }
     return py::reinterpret_steal<T>(item);
 #else
-    return py::reinterpret_borrow<T>(PyList_GET_ITEM(list.ptr(), index));
+    // NOTE: Do not use the unchecked `PyList_GET_ITEM()` macro. The list may be mutated (shrunk) by
+    // a user callback (e.g., the `is_leaf` predicate) while it is being traversed.
+    PyObject* const item = PyList_GetItem(list.ptr(), index);
+    if (item == nullptr) [[unlikely]] {
+        throw py::error_already_set();
+    }
+    return py::reinterpret_borrow<T>(item);
 #endif
 }
 inline Py_ALWAYS_INLINE py::object ListGetItem(const py::handle& list, const py::ssize_t& index) {
@@ -140,7 +146,17 @@ inline Py_ALWAYS_INLINE T DictGetItemAs(const py::handle& dict, const py::handle
     }
     return py::reinterpret_steal<T>(value);
 #else
-    return py::reinterpret_borrow<T>(PyDict_GetItem(dict.ptr(), key.ptr()));
+    // NOTE: `PyDict_GetItem()` suppresses the exceptions raised by `key.__hash__()` and
+    // `key.__eq__()`, and returns NULL for a missing key (e.g., the dict was mutated by a user
+    // callback while it is being traversed).
+    PyObject* const value = PyDict_GetItemWithError(dict.ptr(), key.ptr());
+    if (value == nullptr) [[unlikely]] {
+        if (PyErr_Occurred() == nullptr) [[likely]] {
+            py::set_error(PyExc_KeyError, py::make_tuple(key));
+        }
+        throw py::error_already_set();
+    }
+    return py::reinterpret_borrow<T>(value);
 #endif
 }
 inline Py_ALWAYS_INLINE py::object DictGetItem(const py::handle& dict, const py::handle& key) {
